@@ -329,6 +329,14 @@ fn event_probe(dm: &str, rep: &mut Report) {
 
 /// read-only probes: every attempt must raise error.execution and leave the value intact
 fn readonly_probe(dm: &str, rep: &mut Report) {
+    readonly_probe_mode(dm, rep, true);
+    if dm == "ecmascript" {
+        // what a host gets without the option `datamodel:ecma:strict`
+        readonly_probe_mode(dm, rep, false);
+    }
+}
+
+fn readonly_probe_mode(dm: &str, rep: &mut Report, strict: bool) {
     // event shapes: 0 = string content, 1 = params {list:[1,2,3], m:{k:1}, n:5}, 2 = array content [10,20]
     let mut deep: Vec<(&str, String, &str, u8)> = Vec::new();
     for (loc, shape) in [
@@ -404,7 +412,11 @@ fn readonly_probe(dm: &str, rep: &mut Report) {
                 continue;
             }
         };
-        let mut case = Case::new();
+        let mut case = if strict { Case::new() } else { Case::new_default_mode() };
+        let dm_label = if strict { dm.to_string() } else { format!("{} (default mode, option ecma:strict not set)", dm) };
+        let dm = dm_label.as_str();
+        let kind_label = if strict { kind.to_string() } else { format!("{}:non-strict", kind) };
+        let kind = kind_label.as_str();
         let mut r = case.start(fsm);
         wait_stable(&mut r, 0);
         let sid = r.session.session_id;
